@@ -49,6 +49,7 @@ contract(f"{FO}::Folder.scan", props=["C14"],
                                                 " and self.scan_countdown == (self.scan_duration if old(self.scan_countdown) <= 0 else old(self.scan_countdown)) and result == True)"),
                   ("actual_untouched", "self.health_status == old(self.health_status)")],
          modifies=["self.scan_countdown", "self.visible_health_status", "File.visible_health_status", "File.num_access"],
+         emits=[("folder_scan", ["self", "instant_scan"])], exact_events=True,
          loops={0: {"inv": [("countdown_kept", "self.scan_countdown == old(self.scan_countdown) and self.health_status == old(self.health_status)")],
                     "modifies": ["self.visible_health_status", "File.visible_health_status", "File.num_access"]}})
 contract(f"{FO}::Folder._scan_timestep", props=["C14"],
@@ -87,3 +88,16 @@ writers("C14", "_fixing_countdown", [f"{SW}::Software.fix", f"{SW}::Software._up
 writers("C14", "scan_countdown", [f"{FO}::Folder.scan", f"{FO}::Folder._scan_timestep"], why="folder scan timer")
 writers("C14", "restore_countdown", [f"{FO}::Folder.restore", f"{FO}::Folder._restoring_timestep"], why="folder restore timer")
 writers("C14", "node_scan_countdown", ["src/primaite/simulator/network/hardware/base.py::Node.scan", "src/primaite/simulator/network/hardware/base.py::Node.apply_timestep"], why="node scan timer")
+
+# a scan of the file system (the node scan's completion, or the scan request) reaches EVERY folder, in order, with the same mode
+FSY = "src/primaite/simulator/file_system/file_system.py"
+contract(f"{FSY}::FileSystem.scan", props=["C14"],
+         requires=["forall(j, 0, len(self.folders), forall(k, 0, len(dict_val(self.folders, j).files), dict_val(dict_val(self.folders, j).files, k).folder is not None))"],
+         ensures=[("every_folder_scanned_once", "n_events() == old(n_events()) + len(self.folders) and forall(j, 0, len(self.folders),"
+                                                " event_kind(old(n_events()) + j) == ev('folder_scan') and event_arg(old(n_events()) + j, 0) is dict_val(self.folders, j)"
+                                                " and event_arg(old(n_events()) + j, 1) == instant_scan)"),
+                  ("structure_kept", "same_dict(self.folders)")],
+         modifies=["Folder.scan_countdown", "Folder.visible_health_status", "File.visible_health_status", "File.num_access"],
+         loops={0: {"inv": [("scanned_so_far", "n_events() == old(n_events()) + _i and forall(j, 0, _i, event_kind(old(n_events()) + j) == ev('folder_scan')"
+                                               " and event_arg(old(n_events()) + j, 0) is dict_val(self.folders, j) and event_arg(old(n_events()) + j, 1) == instant_scan)"),
+                            ("structure_kept", "same_dict(self.folders)")]}})
